@@ -31,15 +31,6 @@ def check(acc, opens, src, indent, origin):
         acc.fail(None, case, {'bucket': 'print_raises:' + type(e).__name__, 'error': repr(e)[:300]}, opens)
         return None
     info = {'tree': t0, 'output': o}
-    c2 = pdiff.calmjs_parse(o)
-    if c2[0] != 'ok':
-        acc.fail(classify(src, o, 'reparse'), case, {'bucket': 'calmjs_rejects_output', 'output': o, 'error': c2[1]}, opens)
-        return info
-    t1 = canon.canon_calmjs(c2[1])
-    if t1 != t0:
-        acc.fail(classify(src, o, 'tree'), case, {'bucket': 'reparse_tree_differs', 'output': o,
-                                                  'diff': canon.first_diff(t1, t0)}, opens)
-        return info
     r = pdiff.ref_parse(o)
     if r[0] != 'ok':
         acc.fail(classify(src, o, 'ref'), case, {'bucket': 'reference_rejects_output', 'output': o,
@@ -49,6 +40,15 @@ def check(acc, opens, src, indent, origin):
         acc.fail(classify(src, o, 'reftree'), case, {'bucket': 'reference_reads_other_tree', 'output': o,
                                                      'diff': canon.first_diff(r[1].tree, t0)}, opens)
         return info
+    c2 = pdiff.calmjs_parse(o)
+    if c2[0] != 'ok':
+        acc.fail(classify(src, o, 'reparse'), case, {'bucket': 'calmjs_rejects_output', 'output': o, 'error': c2[1]}, opens)
+        return info
+    t1 = canon.canon_calmjs(c2[1])
+    if t1 != t0:
+        acc.fail(classify(src, o, 'tree'), case, {'bucket': 'reparse_tree_differs', 'output': o,
+                                                  'diff': canon.first_diff(t1, t0)}, opens)
+        return info
     o2 = unparse.pretty(c2[1], indent)
     if o2 != o:
         acc.fail(classify(src, o, 'fixpoint'), case, {'bucket': 'not_a_fixpoint', 'output': o, 'second': o2}, opens)
@@ -56,7 +56,21 @@ def check(acc, opens, src, indent, origin):
 
 
 def classify(src, out, what):
-    return None
+    """calmjs rejecting or misreading *valid* printer output (the reference reads it as the source
+    tree) is a parser-side disagreement on that output: attribute it to a listed parser finding
+    when the neutralised output passes the parse differential"""
+    if what not in ('reparse', 'tree'):
+        return None
+    from harness import findings
+    f2, i2 = pdiff.compare(out)
+    if f2 is None or f2['kind'] == 'exception':
+        return None
+
+    def rerun(t2):
+        g, _ = pdiff.compare(t2)
+        return g
+    sig, _ = findings.classify_parse_failure(out, f2, i2, rerun)
+    return sig
 
 
 def replay(case, acc):
